@@ -205,6 +205,7 @@ def core_alphabet():
     for n, c in (("gzip:a", "gzip"), ("gzip:trunc", "gzip"), ("x", "gzip"), ("zlib:a", "gzip"), ("deflate:a", "deflate")):
         acts.append(["wire", 1, n, c])
     acts += [["get", 1, True], ["decode", 1, True], ["encode", 1, "gzip"], ["encode", 1, "deflate"]]
+    acts += [["setraw", 0, "x"], ["setraw", 0, "gzip:a"], ["setcl", 0, "7"], ["reassign", 0]]
     return acts
 
 
@@ -254,6 +255,15 @@ def alphabet(level: str):
             acts.append(["decode", m, strict])
         for c in ["identity", "", "gzip", "deflate", "br", "zstd", "GZip", "foo"] if rich else ["gzip", "deflate"]:
             acts.append(["encode", m, c])
+        if rich:
+            # the raw body replaced directly (headers untouched, as `m.raw_content = ...` does), a Content-Length that
+            # is wrong or missing, and the idiom `m.content = m.content` (assign the content just read)
+            for n in ["x", "gzip:a"] + (["empty", "gzip:trunc"] if full else []):
+                acts.append(["setraw", m, n])
+            if m == 0:
+                acts.append(["setcl", m, "7"])
+                acts.append(["setcl", m, None])
+            acts.append(["reassign", m])
     return acts
 
 
